@@ -76,7 +76,10 @@ pub fn install_panic_hook() {
             .or_else(|| info.payload().downcast_ref::<&str>().map(|s| s.to_string()))
             .unwrap_or_else(|| "<non-string panic>".into());
         let loc = info.location().map(|l| format!("{}:{}", l.file(), l.line())).unwrap_or_default();
-        LAST_PANIC.with(|p| *p.borrow_mut() = Some((msg, loc)));
+        if std::env::var("VERIF_DEBUG_PANIC").is_ok() {
+            eprintln!("PANIC: {msg} at {loc}");
+        }
+        let _ = LAST_PANIC.try_with(|p| *p.borrow_mut() = Some((msg, loc)));
     }));
 }
 pub fn take_last_panic() -> Option<(String, String)> {
